@@ -11,7 +11,7 @@ PY = "/venv/bin/python"
 T1C = {
     "C01": "qc_sub_fragments, cut_fragments (with the source's own QC plugged in), store_fragments_found and discard_overhanging_fragments (refinement through the aliasing invariant `Coherent`), add_missing_scaffolds_from_input (refinement), and — when Properties/C01ImpRemap.lean is registered — the whole of phase 1 (`remap_to_input_assembly`) as a composition of the translated kernels",
     "C02": "the eight Start/EndOverhangPremise methods, OverhangResolver.add_overhang_premise, OverhangResolver.make_fixes, a whole resolver round (shared OverlapResults as store indices)",
-    "C03": "FastaStream.write_scaffold",
+    "C03": "FastaStream.write_scaffold and write_assembly; with the translated iterators and sequence_bytes every function from write_assembly down to fh.read is the translated source: the bytes it writes are the AGP applied to the input FASTA (`source_fasta_file_is_agp_applied`)",
     "C04": "index_fasta_file (whole body with its two closures; = the model's indexer for the lines of every file; hence the SOURCE's indexer returns the faidx quintuples and the tiling assembly)",
     "C05": "format_tpf, parse_agp, parse_tpf (+ the round trips of the SOURCE's writer and parser); constructor guards: Gap / Fragment / FastaInfo __init__ and their signature defaults build the model literals",
     "C06": "format_agp (+ validity of what the SOURCE writes)",
@@ -21,7 +21,7 @@ T1C = {
     "C11": "AssemblyStats.make_stats (counts unconditionally, per-assembly records for distinct keys), Assembly.fragment_junction_set, Scaffold.fragment_junction_set and Assembly.fragment_junctions_by_asm_prefix (iterators; with them make_stats is tied with NO oracle left: C11ImpJunctions)",
     "C12": "IndexedAssembly.find_overlaps (whole body: the SOURCE's lookup = the brute-force scan), IndexedAssembly.add_scaffold",
     "C13": "FastaIndex.get_gap_iter / fwd_chunks / rev_chunks / get_info / get_sequence_iter, reverse_complement, revcomp_bytes_io; write_scaffold WITH the source's own iterators writes the model's bytes",
-    "C14": "OverlapResult.to_scaffold, Fragment.reverse, FastaIndex.sequence_bytes (binary handle: exact tie; = the model's sequenceBytes when rpl ≤ mll)",
+    "C14": "OverlapResult.to_scaffold, Fragment.reverse, FastaIndex.sequence_bytes (binary handle; = the model's sequenceBytes for every input, after the model repair of the negative relative seek), Scaffold.reverse (= the model's reversal up to fresh object ids; double reversal and preservation laws for the SOURCE function)",
     "C15": "FastaIndex.check_for_index_files (file system as oracles: accepts exactly when both cache files exist and are strictly newer)",
     "C16": "get_output_filehandle (opens once, with the model's mode; exit status 1 exactly when the model's openOutput fails)",
     "C17": "Scaffold.fragment_tags, Scaffold.length, Scaffold.fragments_length, FastaInfo.fai_row and FastaIndex.load_index (the SOURCE's .fai writer rows read back by the SOURCE's loader give the index: warm = cold at source level)",
